@@ -306,6 +306,74 @@ def replay_fractional(p):
     return bad, f"request for {p['count']} samples {how}: antenna clock {clocks[0]!r}, stream clocks {clocks[1:]!r}"
 
 
+def job_clock_resync(num_pols, op):
+    """one clock operation from an ARBITRARY pre-state (stream clocks and flags differing from the antenna's, as after a
+    request that failed part-way or after driving a stream directly): afterwards every clock is the requested instant,
+    a new observation is flagged, and the next sample is evaluated there"""
+    recs = []
+    P, pre = params()
+    tag = f"C10:resync:{(num_pols, op)}"
+    tx, ty, ta, g = (Sym(z3.Real(n)) for n in ('t_x', 't_y', 't_ant', 'gap'))
+    with volt_patches(proxy=proxy()):
+        ant = A.Antenna(sample_rate=P['sr'], fch1=P['fch1'], ascending=True, num_pols=num_pols, t_start=P['t0'], seed=3)
+        for st in ant.streams:
+            st.add_constant_signal(P['f_start'], P['drift'], P['level'], P['phase'])
+        ant.get_samples(2)
+        # arbitrary, mutually different clocks; flags as left by an interrupted request
+        ant.t_start, ant.start_obs = ta, True
+        for st, t_ in zip(ant.streams, (tx, ty)):
+            st.t_start, st.start_obs = t_, False
+        if op == 'set_time':
+            ant.set_time(g)
+            want = g.t
+        elif op == 'add_time':
+            ant.add_time(g)
+            want = ta.t + g.t
+        else:
+            ant.reset_start()
+            want = ta.t
+        clocks = [ant.t_start] + [st.t_start for st in ant.streams]
+        flags = [ant.start_obs] + [st.start_obs for st in ant.streams]
+        v = ant.get_samples(1)
+    pairs = [((lift(c), RV(0)), (want, RV(0))) for c in clocks]
+    for pol in range(num_pols):
+        ph = RV(TWO_PI) * ((P['f_start'].t - P['fch1'].t) * want + RV(0.5) * P['drift'].t * want * want)
+        pairs.append((cparts(v[0, pol, 0]), (P['level'].t * UF('COS')(ph + P['phase'].t), RV(0))))
+    pl = dict(fn='resync', num_pols=num_pols, op=op)
+    decide(tag, pairs, recs, 'C10:resync', f"after {op} from a state in which the streams' clocks differ from the antenna's, the clocks are not all at the requested instant", pl, pre)
+    ok = all(bool(f) for f in flags)
+    r, _ = core.check([RV(int(ok)) != 1])
+    recs.append(q(tag + ':flags', r, trivial=True))
+    if not ok:
+        recs.append(cex('C10:resync:flags', f'{op}: a new observation is not flagged on antenna and streams', pl, name=tag + ':flags'))
+    return recs
+
+
+def replay_resync(p):
+    from setigen.voltage import antenna as an
+    ant = an.Antenna(sample_rate=1000.0, fch1=100.0, ascending=True, num_pols=p['num_pols'], t_start=1.5, seed=4)
+    for st in ant.streams:
+        st.add_signal(lambda ts: np.asarray(ts) * 7.0)          # sample value = 7 * its own time
+    ant.get_samples(2)
+    ant.t_start, ant.start_obs = 3.25, True
+    for st, t_ in zip(ant.streams, (9.0, 11.5)):
+        st.t_start, st.start_obs = t_, False
+    if p['op'] == 'set_time':
+        ant.set_time(20.0)
+        want = 20.0
+    elif p['op'] == 'add_time':
+        ant.add_time(0.75)
+        want = 4.0
+    else:
+        ant.reset_start()
+        want = 3.25
+    clocks = [ant.t_start] + [st.t_start for st in ant.streams]
+    flags = [ant.start_obs] + [st.start_obs for st in ant.streams]
+    v = ant.get_samples(1)
+    bad = any(abs(c - want) > 1e-12 for c in clocks) or not all(flags) or not np.allclose(v[0, :, 0], 7.0 * want)
+    return bad, f"{p['op']} from diverged clocks: clocks {clocks} (expected {want}), flags {flags}, next sample {v[0, :, 0]} (expected {7.0 * want})"
+
+
 # ------------------------------------------------------------------ concrete oracle
 def replay_stream(p):
     from setigen.voltage import data_stream as ds
@@ -405,7 +473,7 @@ def replay_antenna(p):
     return bool(msgs), '; '.join(msgs) or 'antenna ok'
 
 
-REPLAYS = {'stream': replay_stream, 'antenna': replay_antenna, 'fractional': replay_fractional}
+REPLAYS = {'stream': replay_stream, 'antenna': replay_antenna, 'fractional': replay_fractional, 'resync': replay_resync}
 
 
 def main():
@@ -431,6 +499,8 @@ def main():
             jobs.append(('job_antenna', (num_pols, asc, 3 if not ck.thorough else 4)))
         jobs.append(('job_antenna', (2, asc, 2, True)))
     for num_pols in (1, 2):
+        for op in ('set_time', 'add_time', 'reset_start'):
+            jobs.append(('job_clock_resync', (num_pols, op)))
         for count in (2.5, 3.0, 0.5):
             jobs.append(('job_fractional_request', (num_pols, count)))
     ck.run_jobs('props.C10', jobs, timeout_s=900)
